@@ -2,6 +2,7 @@
 # usage: tools/run_all.sh quick|thorough  -> runs every check, prints a summary line each
 cd "$(dirname "$0")/.."
 tier=${1:-quick}
+mkdir -p .build
 for i in $(seq -w 1 20); do
   id=C$i
   start=$(date +%s)
